@@ -322,6 +322,13 @@ func runC34Schedule(rt *rapid.T, c *harness.Case, w *relayWorld, hdr pocketTypes
 	for i := 0; i < pre; i++ {
 		r := pool[distinct+i]
 		if resp, err := w.k.HandleRelay(w.ctx(rt), r); err != nil || resp == nil {
+			if err != nil && strings.Contains(err.Error(), "already found") {
+				// the duplicate check is a Bloom filter sized for the per-node allowance (1 % false positives by design):
+				// now and then it refuses a relay that was never seen. A refused relay is not answered, so the property
+				// says nothing about it; this schedule simply has no usable starting point.
+				c.Label("unique-relay-refused-by-bloom-false-positive")
+				return
+			}
 			rt.Fatalf("pre-stored relay rejected: %v", err)
 		}
 		preHashes[r.Proof.HashStringWithSignature()] = true
